@@ -70,6 +70,17 @@ def resample_need(k, step_num, step_den, p):
   return max(w0 + p + 1, 0)
 
 
+class ReIter(object):
+  """A re-iterable (NOT an iterator) that reads lazily from an underlying counted source:
+  every iter() starts another reader on the same source, so a stage that iterates its input
+  once per branch instead of sharing one read shows up in the pull count."""
+  def __init__(self, src):
+    self.src = src
+  def __iter__(self):
+    for v in self.src:
+      yield v
+
+
 def catalogue():
   C = OrderedDict()
   S = Stage
@@ -137,6 +148,13 @@ def catalogue():
   C["tv-a0"] = S(lambda a, b: (1 / ((Stream(b) + 1) - z ** -1))(a), lambda k: k, nsrc=2)
   C["cascade"] = S(lambda s: CascadeFilter(1 - z ** -1, 1 / (1 - .5 * z ** -1))(s), lambda k: k)
   C["parallel"] = S(lambda s: ParallelFilter(1 - z ** -1, z ** -2, 1 / (1 - .5 * z ** -1))(s), lambda k: k)
+  C["parallel(re-iterable)"] = S(lambda s: ParallelFilter(1 - z ** -1, z ** -2, 1 / (1 - .5 * z ** -1))(ReIter(s)), lambda k: k)
+  C["cascade(parallel(re-iterable))"] = S(lambda s: CascadeFilter(ParallelFilter(1 + z ** -1, z ** -1), 1 - z ** -1)(ReIter(s)),
+                                          lambda k: k)
+  C["fir(re-iterable)"] = S(lambda s: (1 + 2 * z ** -1)(ReIter(s)), lambda k: k)
+  C["stream(re-iterable)+itself"] = S(lambda s: (lambda t: t + t)(thub(ReIter(s), 2)), lambda k: k)
+  C["blocks(re-iterable)"] = S(lambda s: blocks(ReIter(s), size=3, hop=1), lambda j: j + 2, kind="blocks")
+  C["maverage(re-iterable)"] = S(lambda s: maverage.recursive(3)(ReIter(s)), lambda k: k)
   C["parallel-empty"] = S(lambda s: ParallelFilter()(s), lambda k: k)
   C["cascade-empty"] = S(lambda s: Stream(CascadeFilter()(s)), lambda k: k)
   C["linearized"] = S(lambda s: (z ** -1.5).linearize()(s), lambda k: k)
@@ -185,6 +203,17 @@ def catalogue():
       m.add(2, b)
       return m
     return build
+  def mixfrac(a, b):
+    m = Streamix()
+    m.add(2.4, a)       # due at 2.4 -> sample 2
+    m.add(2.4, b)       # due at 4.8 -> sample 5
+    return m
+  C["streamix-fractional"] = S(mixfrac, lambda k: (max(k - 2, 0), max(k - 5, 0)), nsrc=2)
+  def mixfrac2(a, b, c):
+    m = Streamix(keep=True)
+    m.add(0.3, a); m.add(1.3, b); m.add(1.3, c)    # due at 0.3, 1.6, 2.9 -> samples 0, 2, 3
+    return m
+  C["streamix-fractional3"] = S(mixfrac2, lambda k: (k, max(k - 2, 0), max(k - 3, 0)), nsrc=3)
   C["streamix"] = S(mix(False), lambda k: (k, max(k - 2, 0)), nsrc=2)
   C["streamix-keep"] = S(mix(True), lambda k: (k, max(k - 2, 0)), nsrc=2)
   C["modulo_counter(start)"] = S(lambda s: modulo_counter(Stream(s), 7., 2.), lambda k: k)
